@@ -11,7 +11,7 @@ namespace PycModel.ClimbConcrete
 open PycModel PycModel.Climb PycModel.ClimbSim PycModel.View
 
 section
-variable (ty : String → Bool)
+variable (env : Env)
 -- `Op n a ta fa`: the tokens `ta`, starting at stream position `n`, spell an operand with value `a`
 -- that the operand parser parses with fuel `fa`
 variable (Op : Nat → Val → List Tk → Nat → Prop)
@@ -28,14 +28,14 @@ inductive Denotes (fuel0 : Nat) : Nat → List PT → List Tk → Prop
 
 /-- `N`: total number of tokens of the input (`s.idx + remaining = N` is invariant) -/
 def SeesPT (fuel0 N : Nat) (s : PState) (ts : List PT) : Prop :=
-  ∃ toks, SeesT ty s toks ∧ Denotes Op Follow fuel0 s.idx ts toks ∧ s.idx + toks.length = N
+  ∃ toks, SeesT env s toks ∧ Denotes Op Follow fuel0 s.idx ts toks ∧ s.idx + toks.length = N
 
 /-- the operand parser parses operands: consumes exactly their tokens, returns their value -/
 def OperandSpec : Prop :=
-  ∀ fuel s a ta fa rest, fa ≤ fuel → Op s.idx a ta fa → Follow rest → SeesT ty s (ta ++ rest) →
-    ∃ s', run fuel .castExpression s = .ok a s' ∧ SeesT ty s' rest ∧ s'.idx = s.idx + ta.length
+  ∀ fuel s a ta fa rest, fa ≤ fuel → Op s.idx a ta fa → Follow rest → SeesT env s (ta ++ rest) →
+    ∃ s', run fuel .castExpression s = .ok a s' ∧ SeesT env s' rest ∧ s'.idx = s.idx + ta.length
 
-theorem iface (fuel0 N : Nat) (hop : OperandSpec ty Op Follow) : Iface (SeesPT ty Op Follow fuel0 N) fuel0 where
+theorem iface (fuel0 N : Nat) (hop : OperandSpec env Op Follow) : Iface (SeesPT env Op Follow fuel0 N) fuel0 where
   peek_tk := by
     intro s k v ts ⟨toks, hs, hd, hN⟩
     cases hd with
